@@ -180,6 +180,33 @@ int run_c10(const Args& a, Recorder& rec) {
                     check_maps(Q, jw, "c+_" + si + "c_" + std::to_string(j));
                 }
             }
+            // container call histories: every sequence of up to four calls from {prepareAll(), prepareAll({0}), prepareAll({last}), computeAll()} that ends
+            // with computeAll().  Every index that was ever prepared must then have computed operators equal to the one-by-one ones, and a Green's
+            // function built from the operators handed out after the FIRST computeAll() must still be usable (the references it keeps stay valid)
+            if (M >= 2 && c.st.hist.size() <= 1) {
+                for (int len = 2; len <= 4; ++len) { long cnt = 1; for (int q = 0; q < len - 1; ++q) cnt *= 4;
+                  for (long code = 0; code < cnt; ++code) { long cdx = code; std::vector<int> seq; bool anyprep = false; for (int q = 0; q < len - 1; ++q) { seq.push_back(cdx % 4); cdx /= 4; } seq.push_back(3);
+                    for (int o : seq) if (o < 3) anyprep = true; if (!anyprep) continue;
+                    FieldOperatorContainer FC(*P.IC, *P.S, *P.H); std::set<int> prepared; std::string hs; std::unique_ptr<GreensFunction> keep; int keep_i = -1; bool bad = false;
+                    DensityMatrix R(*P.S, *P.H, 1.0); R.prepare(); R.compute();
+                    for (size_t q = 0; q < seq.size() && !bad; ++q) { int o = seq[q];
+                        try {
+                            if (o == 0) { FC.prepareAll(); for (int i = 0; i < M; ++i) prepared.insert(i); hs += "prepareAll();"; }
+                            else if (o == 1) { std::set<ParticleIndex> st; st.insert(0); FC.prepareAll(st); prepared.insert(0); hs += "prepareAll({0});"; }
+                            else if (o == 2) { std::set<ParticleIndex> st; st.insert(M - 1); FC.prepareAll(st); prepared.insert(M - 1); hs += "prepareAll({last});"; }
+                            else { FC.computeAll(); hs += "computeAll();";
+                                if (!keep && !prepared.empty()) { keep_i = *prepared.begin(); keep.reset(new GreensFunction(*P.S, *P.H, FC.getAnnihilationOperator(keep_i), FC.getCreationOperator(keep_i), R)); } }
+                        } catch (std::exception& e) { rec.violation("C10:container-history:throws", std::string("a container call throws: ") + e.what(), kase + " | " + hs); bad = true; }
+                    }
+                    if (bad) continue; rec.evaluations++;
+                    for (int i : prepared) { std::string si = std::to_string(i);
+                        refed::Mat cx = P.dense_eigen(const_cast<CreationOperator&>(FC.getCreationOperator(i))), cc = P.dense_eigen(const_cast<AnnihilationOperator&>(FC.getAnnihilationOperator(i)));
+                        if (maxabs(cx - CXc[i]) > 1e-13 || maxabs(cc - Cc[i]) > 1e-13 || const_cast<CreationOperator&>(FC.getCreationOperator(i)).getStatus() != ComputableObject::Computed || const_cast<AnnihilationOperator&>(FC.getAnnihilationOperator(i)).getStatus() != ComputableObject::Computed) { rec.violation("C10:container-history", "after this call history the container's c+_" + si + " / c_" + si + " is not the computed operator", kase + " | " + hs); bad = true; break; } }
+                    if (!bad && keep) { keep->prepare(); keep->compute(); GreensFunction F(*P.S, *P.H, FC.getAnnihilationOperator(keep_i), FC.getCreationOperator(keep_i), R); F.prepare(); F.compute();
+                        if (std::abs((*keep)(0) - F(0)) > 1e-12 * (1 + std::abs(F(0)))) rec.violation("C10:container-history:kept-operator", "a Green's function built from operators handed out earlier differs after later container calls", kase + " | " + hs); }
+                    rec.counters["container_histories"]++;
+                  } }
+            }
             // CAR assembled over all blocks
             for (int i = 0; i < M; ++i) for (int j = 0; j < M; ++j) {
                 refed::Mat ac = Cc[i] * CXc[j] + CXc[j] * Cc[i]; if (i == j) ac -= refed::Mat::Identity(D, D);
